@@ -7,10 +7,13 @@ import (
 	"fmt"
 	"math/rand"
 	"os"
+	"path/filepath"
 	"runtime/debug"
 	"sort"
 	"strconv"
 	"strings"
+	"syscall"
+	"time"
 
 	"github.com/gabriel-vasile/mimetype"
 
@@ -73,6 +76,49 @@ type c17Payload struct {
 	L1   uint32 `json:"limit_binary"`
 	L2   uint32 `json:"limit_lost"` // 0 = unlimited
 	InQ  string `json:"in_quoted"`
+}
+
+// c17ViaEntry detects x through a reader / a temp file / a named pipe.
+func c17ViaEntry(dir string, x []byte, lim uint32, entry string) (lib.Chain, bool) {
+	mimetype.SetLimit(lim)
+	switch entry {
+	case "DetectReader":
+		m, err := mimetype.DetectReader(&oddChunks{b: x})
+		return lib.ChainOf(m), err == nil
+	case "DetectFile":
+		f := filepath.Join(dir, "f.bin")
+		if os.WriteFile(f, x, 0o600) != nil {
+			return nil, false
+		}
+		m, err := mimetype.DetectFile(f)
+		return lib.ChainOf(m), err == nil
+	}
+	ff := filepath.Join(dir, "fifo")
+	os.Remove(ff)
+	if syscall.Mkfifo(ff, 0o600) != nil {
+		return nil, false
+	}
+	defer os.Remove(ff)
+	done := make(chan struct{})
+	go func() {
+		defer close(done)
+		w, err := os.OpenFile(ff, os.O_WRONLY, 0)
+		if err != nil {
+			return
+		}
+		defer w.Close()
+		w.Write(x)
+	}()
+	m, err := mimetype.DetectFile(ff)
+	select {
+	case <-done:
+	case <-time.After(3 * time.Second): // harness liveness only
+		if rd, e := os.OpenFile(ff, os.O_RDONLY|syscall.O_NONBLOCK, 0); e == nil {
+			<-done
+			rd.Close()
+		}
+	}
+	return lib.ChainOf(m), err == nil
 }
 
 func c17JudgeInput(c *fw.Ctx, kind string, x []byte, dense int, extra []int) {
@@ -379,6 +425,45 @@ func c17Run(c *fw.Ctx, b fw.Batch) {
 				c.Distinct(fmt.Sprintf("huge|%d", lim))
 			}
 		}
+	case "entry-points":
+		// the same sweep through DetectReader and DetectFile (regular temp file and a named
+		// pipe: stat size 0, not seekable): once binary, binary at every larger limit incl. 0
+		dir, err := os.MkdirTemp("", "verif-c17-")
+		if err != nil {
+			panic("verif harness: " + err.Error())
+		}
+		defer os.RemoveAll(dir)
+		var bins [][]byte
+		for _, s := range seeds {
+			if len(s) >= 8 && len(s) <= 6000 && c17Class(lib.ChainOf(lib.Detect(s, 3072))) == 'b' {
+				bins = append(bins, s)
+			}
+		}
+		for i := 0; i < 24 && len(bins) > 0; i++ {
+			x := bins[r.Intn(len(bins))]
+			for _, entry := range []string{"DetectReader", "DetectFile", "DetectFile-fifo"} {
+				first, firstAt := byte(0), 0
+				for _, L := range []int{4, 8, 16, 64, 512, len(x) - 1, len(x), len(x) + 1, 3072, 65536, 0} {
+					if L < 0 {
+						continue
+					}
+					ch, ok := c17ViaEntry(dir, x, uint32(L), entry)
+					if !ok {
+						c.Count("entry_point_cases_skipped", 1)
+						continue
+					}
+					c.Eval(1)
+					c.Count("entry_point_detections_"+entry, 1)
+					cl := c17Class(ch)
+					if first == 'b' && cl != 'b' && (L == 0 || L > firstAt) {
+						c.Violate("binary-identification-lost", fw.InputKey(x, uint32(L), entry), fmt.Sprintf("through %s: binary at limit %d, %s at limit %d", entry, firstAt, ch, L), c17Payload{Kind: "entry:" + entry, In: x, L1: uint32(firstAt), L2: uint32(L)})
+					}
+					if first != 'b' && cl == 'b' && L != 0 {
+						first, firstAt = 'b', L
+					}
+				}
+			}
+		}
 	case "structured":
 		for i := 0; i < b.N; i++ {
 			x, kind, extra := c17Structured(r)
@@ -394,7 +479,7 @@ func init() {
 	fw.Register(&fw.Prop{
 		ID:    "C17",
 		Level: "exploration",
-		Rule: "inputs = every seed (first 6000 bytes), seeds with random / text / zero / other-seed tails appended (incl. one 9000-byte tail per seed swept sparsely past 4096 and 8192), seed mutants, and structured inputs whose deciding bytes sit at offsets given by length fields or at late fixed offsets (ID3v2 tags of 0-6000 bytes followed by MPEG / AAC / FLAC / junk, CRX with key+signature lengths to 6000 followed by zip or junk, multi-member tar archives from archive/tar with hostile member names, OLE with late CLSIDs, Matroska with a late DocType, hand-built zips, the TrueType -> Access hand-over, late sub-type markers, DICOM / MOBI / GIMP offsets); every short binary seed's first 2 / 4 / 8 / all bytes followed by tokens from a dictionary of all string and byte-slice literals of the signature packages, read from the tree under test at run time; DetectReader with limits next to 2^32 (skipped when less than 24 GiB of memory is available). For each input the class is computed at EVERY limit up to a dense bound (1536 / 700), sparsely beyond, around 512 / 1024 / 1152 / 3072 / 4096 and around the structure's own offsets, and at 0 as the largest; once binary, every larger limit must be binary. " +
+		Rule: "inputs = every seed (first 6000 bytes), seeds with random / text / zero / other-seed tails appended (incl. one 9000-byte tail per seed swept sparsely past 4096 and 8192), seed mutants, and structured inputs whose deciding bytes sit at offsets given by length fields or at late fixed offsets (ID3v2 tags of 0-6000 bytes followed by MPEG / AAC / FLAC / junk, CRX with key+signature lengths to 6000 followed by zip or junk, multi-member tar archives from archive/tar with hostile member names, OLE with late CLSIDs, Matroska with a late DocType, hand-built zips, the TrueType -> Access hand-over, late sub-type markers, DICOM / MOBI / GIMP offsets); every short binary seed's first 2 / 4 / 8 / all bytes followed by tokens from a dictionary of all string and byte-slice literals of the signature packages, read from the tree under test at run time; DetectReader with limits next to 2^32 (skipped when less than 24 GiB of memory is available); limit sweeps of binary seeds through an oddly chunking reader, a temp file and a named pipe (stat size 0). For each input the class is computed at EVERY limit up to a dense bound (1536 / 700), sparsely beyond, around 512 / 1024 / 1152 / 3072 / 4096 and around the structure's own offsets, and at 0 as the largest; once binary, every larger limit must be binary. " +
 			"non-trivial = the reported leaf changes at least twice along the limit sweep; distinct = distinct (first binary leaf, limit at which it first appeared, class sequence) tuples.",
 		Assumptions: []string{
 			"text = text/plain somewhere in the hierarchy; unknown = the parentless application/octet-stream root",
@@ -414,6 +499,7 @@ func init() {
 			}
 			bs = append(bs, batches("dictionary", 8, nd, 3000)...)
 			bs = append(bs, batches("huge-limit", 1, 0, 3000)...)
+			bs = append(bs, batches("entry-points", 1, 0, 3000)...)
 			return bs
 		},
 		Run: c17Run,
@@ -425,6 +511,17 @@ func init() {
 			}
 			if p.Kind == "huge-limit" {
 				c17Run(c, fw.Batch{Kind: "huge-limit"})
+				return
+			}
+			if strings.HasPrefix(p.Kind, "entry:") {
+				dir, _ := os.MkdirTemp("", "verif-c17-")
+				defer os.RemoveAll(dir)
+				e := strings.TrimPrefix(p.Kind, "entry:")
+				a, _ := c17ViaEntry(dir, p.In, p.L1, e)
+				bch, _ := c17ViaEntry(dir, p.In, p.L2, e)
+				if c17Class(a) == 'b' && c17Class(bch) != 'b' {
+					c.Violate("binary-identification-lost", fw.InputKey(p.In, p.L2, e), fmt.Sprintf("through %s: binary at limit %d, %s at limit %d", e, p.L1, bch, p.L2), p)
+				}
 				return
 			}
 			a := c17Class(lib.ChainOf(lib.Detect(p.In, p.L1)))
